@@ -398,6 +398,40 @@ func checkE2E(c e2eCase) (nt bool, v *verdict) {
 				}
 			}
 			px.P.OnSvcHostRemove([]*host.Host{mk(h, m.backup)})
+			// established connections to the OTHER hosts are none of this removal's business: they must stay open
+			// (a backend that was stopped keeps its established connections, so only the proxy can have closed one)
+			{
+				var others []*liveConn
+				for _, lc := range live {
+					if lc.backend != h && len(others) < 8 {
+						others = append(others, lc)
+					}
+				}
+				cut := make([]bool, len(others))
+				var swg sync.WaitGroup
+				for k, lc := range others {
+					swg.Add(1)
+					go func(k int, lc *liveConn) {
+						defer swg.Done()
+						lc.c.SetReadDeadline(time.Now().Add(40 * time.Millisecond))
+						_, err := lc.c.Read(make([]byte, 16))
+						if err != nil {
+							if ne, ok := err.(net.Error); !ok || !ne.Timeout() {
+								cut[k] = true
+							}
+						}
+					}(k, lc)
+				}
+				swg.Wait()
+				for k, lc := range others {
+					if cut[k] {
+						return nt, &verdict{"connection-to-another-host-cut-by-removal", fmt.Sprintf("%s: host %s was removed; an established connection relayed to host %s, which was not touched, was closed", where, backends[h].Addr, backends[lc.backend].Addr)}
+					}
+				}
+				if len(others) > 0 {
+					nt = true
+				}
+			}
 			if hadConn {
 				nt = true
 				// established connections to the removed host are closed
@@ -433,16 +467,12 @@ func checkE2E(c e2eCase) (nt bool, v *verdict) {
 			}
 			px.P.OnSvcAllHostReplace(hs)
 			lastFlip = time.Now()
-			// connections to hosts that left are closed by the proxy; forget them here
-			var keep []*liveConn
+			// ReplaceAll retires every host object, those of addresses that stay included (the new list consists of new
+			// objects), so the proxy may close any established connection; forget them all here
 			for _, lc := range live {
-				if members[lc.backend] != nil {
-					keep = append(keep, lc)
-				} else {
-					lc.c.Close()
-				}
+				lc.c.Close()
 			}
-			live = keep
+			live = nil
 		case "down":
 			if up[h] {
 				backends[h].Stop(false)
@@ -460,6 +490,22 @@ func checkE2E(c e2eCase) (nt bool, v *verdict) {
 				lastFlip = time.Now()
 				flipAt[h] = lastFlip
 			}
+		case "blip":
+			// a member's backend is unreachable for a moment, shorter than the health checker needs to notice: connections
+			// arriving meanwhile may be picked for it and fail (or be served by another member); afterwards everything is as before
+			if !up[h] || members[h] == nil {
+				continue
+			}
+			backends[h].Stop(false)
+			for k := 0; k < o.N; k++ {
+				if _, v := connect(where); v != nil {
+					return nt, v
+				}
+			}
+			backends[h].Start()
+			lastFlip = time.Now()
+			flipAt[h] = lastFlip
+			nt = true
 		case "closeconn":
 			if len(live) > 0 {
 				k := o.N % len(live)
@@ -591,7 +637,9 @@ func genE2E(t *rapid.T) e2eCase {
 	n := rapid.IntRange(2, 14).Draw(t, "n")
 	for i := 0; i < n; i++ {
 		o := eop{Host: rapid.IntRange(0, nBackends-1).Draw(t, "host")}
-		switch x := rapid.IntRange(0, 16).Draw(t, "op"); {
+		switch x := rapid.IntRange(0, 18).Draw(t, "op"); {
+		case x >= 17:
+			o.Op, o.N = "blip", rapid.IntRange(1, 8).Draw(t, "blipn")
 		case x <= 2:
 			o.Op, o.Backup = "add", rapid.IntRange(0, 2).Draw(t, "backup") == 0
 		case x <= 4:
